@@ -116,6 +116,9 @@ type Spec[C any] struct {
 	HashOf func(c C) uint64
 	// SampleOf optionally renders a compact sample (default: the Case itself).
 	SampleOf func(c C) any
+	// CrashReplay keeps the case under evaluation on disk (units that run background goroutines of the
+	// code under test): if the process dies with an unrecovered panic there, the driver reports the case.
+	CrashReplay bool
 }
 
 // KnownSet tells generators which known-finding classes are active (listed with status
@@ -349,7 +352,19 @@ func Run[C any](t *testing.T, spec Spec[C]) {
 		}
 		return ""
 	}
+	// CrashReplay: the case under evaluation is kept on disk so that the driver can name it if the process dies with an
+	// unrecovered panic in a goroutine of the code under test (which no recover() of the harness can catch)
+	inflight := ""
+	if spec.CrashReplay && os.Getenv("VERIF_OUT") != "" {
+		inflight = filepath.Join(os.Getenv("VERIF_OUT"), fmt.Sprintf("%s-%s-%d.inflight.json", spec.Property, spec.Unit, shard))
+	}
 	safeCheck := func(x *Ctx, c C) (err error) {
+		if inflight != "" {
+			if b, merr := json.MarshalIndent(c, "", " "); merr == nil {
+				_ = os.WriteFile(inflight, b, 0o644)
+			}
+			defer os.Remove(inflight)
+		}
 		defer func() {
 			if r := recover(); r != nil {
 				err = fmt.Errorf("panic: %v\n%s", r, debug.Stack())
